@@ -63,6 +63,15 @@ def drive_unary(run, rng, tier):
                 fm.identity(A)
                 if dtype is np.float64:
                     fm.eigh(S)
+                    # documented storage flag: only the named triangle is read
+                    for uplo in ("L", "U"):
+                        T = S.copy()
+                        for i in range(d):
+                            for j in range(d):
+                                if (uplo == "L" and j > i) or (uplo == "U" and j < i):
+                                    T[i, j] = 7.0
+                        fm.eigh(T, UPLO=uplo)
+                        fm.eigh(S, UPLO=uplo)
                     fm.eig(A)
                     fm.eigvals(A)
                     fm.eigvalsh(S)
@@ -193,7 +202,7 @@ def _required():
         req += ["math:dddot[mode=(3, 3),parallel=%s]" % p, "math:cdya_ik[parallel=%s]" % p,
                 "math:cdya_il[parallel=%s]" % p, "math:cdya[parallel=%s]" % p]
     req += ["math:dya[mode=1]", "math:dya[mode=2]", "math:transpose[mode=1]", "math:transpose[mode=2]",
-            "math:majortranspose", "math:cross", "math:eigh", "math:eig", "math:eigvals", "math:eigvalsh[shear=False]",
+            "math:majortranspose", "math:cross", "math:eigh", "math:eigh[UPLO=L,triangular-storage]", "math:eigh[UPLO=U,triangular-storage]", "math:eig", "math:eigvals", "math:eigvalsh[shear=False]",
             "math:eigvalsh[shear=True]", "math:inplane", "math:identity", "math:reshape", "math:ravel",
             "math:solve_nd[n=1]", "math:solve_nd[n=2]", "math:rotation_matrix[dim=2,axis=-]",
             "math:rotation_matrix[dim=3,axis=0]", "math:rotation_matrix[dim=3,axis=1]",
